@@ -250,6 +250,26 @@ theorem builtin_not_assignable (s : Scope) (ns n : Name) (v : Nat) (m : Module)
   | none => right; rfl
   | some _ => left; simp [hb]
 
+/-- **… through every indirection (spec model)**: a built-in module seen through
+`@forward "sass:…"` — plain, prefixed, with show or hide — is still built-in, hence (by
+`builtin_not_assignable` / `builtin_not_configurable`) neither assignable nor configurable. -/
+theorem builtin_through_forward (pre : Option Name) (e : Expose) : markerSurvives modSpec pre e = true := by
+  simp [markerSurvives, modSpec]
+
+/-- as is: only without prefix and when the filter lets the marker variable through, i.e. not with
+`show` (partial + refutations) -/
+theorem builtin_through_forward_partial (e : Expose)
+    (h : e.allowVar ['@', 's', 'c', 'o', 'p', 'e', '_', 'n', 'a', 'm', 'e', '@'] = true) :
+    markerSurvives modAsIs none e = true := by
+  simp [markerSurvives, modAsIs, h]
+
+example : (Expose.hide [['f']] [['e']]).allowVar ['@', 's', 'c', 'o', 'p', 'e', '_', 'n', 'a', 'm', 'e', '@'] = true := by
+  decide
+
+theorem builtin_through_forward_refuted :
+    markerSurvives modAsIs (some ['p', '-']) .all = false ∧
+    markerSurvives modAsIs none (.show_ [] [['p', 'i']]) = false := by decide
+
 /-- assignment through a namespace cannot create a variable -/
 theorem assign_needs_existing (s : Scope) (ns n : Name) (v : Nat) (m : Module)
     (hm : s.getModule ns = some m) (hn : lookup m.members .var (norm n) = none) :
